@@ -25,9 +25,9 @@ theorem connFree_of_noConnLock {s : State} (h : NoConnLock s) (c : Nat) : connFr
 theorem noConnLock_step {v s a s'} (hv : v.pubUnlocked = true) (h : NoConnLock s)
     (hs : step v s a = some s') : NoConnLock s' := by
   unfold NoConnLock at *
-  cases a <;> step_cases hs <;> grind [State.setW, State.setS]
+  cases a <;> step_cases hs <;> grind [State.setW, State.setS, RunPc.lockW, RunPc.lockR]
 
-theorem noConnLock_init (heads best targets pubs) : NoConnLock (mkInit heads best targets pubs) := by
+theorem noConnLock_init (heads best targets pubs st rtts) : NoConnLock (mkInit heads best targets pubs st rtts) := by
   intro c j
   simp only [mkInit, List.getElem?_map]
   cases heads[c]? <;> simp
@@ -35,7 +35,7 @@ theorem noConnLock_init (heads best targets pubs) : NoConnLock (mkInit heads bes
 theorem reachable_connFree {v s} (hv : v.pubUnlocked = true) (h : Reachable v s) : ∀ c, connFree s c = true := by
   have : NoConnLock s := by
     induction h with
-    | init heads best targets pubs hp => exact noConnLock_init heads best targets pubs
+    | init heads best targets pubs st rtts hp hh => exact noConnLock_init heads best targets pubs st rtts
     | step _ hs ih => exact noConnLock_step hv ih hs
   exact connFree_of_noConnLock this
 
@@ -50,60 +50,60 @@ structure InvO (s : State) : Prop where
   selLow : ∀ (i : Nat) (w : Waiter), s.waiters[i]? = some w → w.pc = .sel → ∀ h ∈ w.received, h < w.target
   prov : ∀ (i : Nat) (w : Waiter), s.waiters[i]? = some w → ∀ h, (h ∈ w.buf ∨ h ∈ w.received) →
     ∃ c, (i, c, h) ∈ s.log
-  provPut : ∀ h h' w todo, s.run = .nPut h h' w todo → ∃ c, (w, c, h') ∈ s.log
+  provPut : ∀ sw h h' w todo, s.run = .nPut sw h h' w todo → ∃ c, (w, c, h') ∈ s.log
 
 theorem invO_okGot {v s a s'} (hA : InvA s) (h : InvO s) (hs : step v s a = some s') :
     ∀ (i : Nat) (w : Waiter), s'.waiters[i]? = some w → (w.pc = .leave .ok ∨ w.pc = .done .ok) →
     ∃ h ∈ w.received, w.target ≤ h := by
   obtain ⟨okGot, errFired, noLeavePanic, selLow, prov, provPut⟩ := h
   have fresh := hA.fresh
-  cases a <;> step_cases hs <;> grind [State.setW, State.setS]
+  cases a <;> step_cases hs <;> grind [State.setW, State.setS, RunPc.lockW, RunPc.lockR]
 
 theorem invO_errFired {v s a s'} (h : InvO s) (hs : step v s a = some s') :
     ∀ (i : Nat) (w : Waiter), s'.waiters[i]? = some w → (w.pc = .leave .err ∨ w.pc = .done .err) →
     w.fired = true := by
   obtain ⟨okGot, errFired, noLeavePanic, selLow, prov, provPut⟩ := h
-  cases a <;> step_cases hs <;> grind [State.setW, State.setS]
+  cases a <;> step_cases hs <;> grind [State.setW, State.setS, RunPc.lockW, RunPc.lockR]
 
 theorem invO_noLeavePanic {v s a s'} (h : InvO s) (hs : step v s a = some s') :
     ∀ (i : Nat) (w : Waiter), s'.waiters[i]? = some w → w.pc ≠ .leave .panic := by
   obtain ⟨okGot, errFired, noLeavePanic, selLow, prov, provPut⟩ := h
-  cases a <;> step_cases hs <;> grind [State.setW, State.setS]
+  cases a <;> step_cases hs <;> grind [State.setW, State.setS, RunPc.lockW, RunPc.lockR]
 
 theorem invO_selLow {v s a s'} (hA : InvA s) (h : InvO s) (hs : step v s a = some s') :
     ∀ (i : Nat) (w : Waiter), s'.waiters[i]? = some w → w.pc = .sel → ∀ h ∈ w.received, h < w.target := by
   obtain ⟨okGot, errFired, noLeavePanic, selLow, prov, provPut⟩ := h
   have fresh := hA.fresh
-  cases a <;> step_cases hs <;> grind [State.setW, State.setS]
+  cases a <;> step_cases hs <;> grind [State.setW, State.setS, RunPc.lockW, RunPc.lockR]
 
 theorem invO_prov {v s a s'} (hA : InvA s) (h : InvO s) (hs : step v s a = some s') :
     ∀ (i : Nat) (w : Waiter), s'.waiters[i]? = some w → ∀ h, (h ∈ w.buf ∨ h ∈ w.received) →
     ∃ c, (i, c, h) ∈ s'.log := by
   obtain ⟨okGot, errFired, noLeavePanic, selLow, prov, provPut⟩ := h
   have fresh := hA.fresh
-  cases a <;> step_cases hs <;> grind [State.setW, State.setS]
+  cases a <;> step_cases hs <;> grind [State.setW, State.setS, RunPc.lockW, RunPc.lockR]
 
 theorem invO_provPut {v s a s'} (h : InvO s) (hs : step v s a = some s') :
-    ∀ h h' w todo, s'.run = .nPut h h' w todo → ∃ c, (w, c, h') ∈ s'.log := by
+    ∀ sw h h' w todo, s'.run = .nPut sw h h' w todo → ∃ c, (w, c, h') ∈ s'.log := by
   obtain ⟨okGot, errFired, noLeavePanic, selLow, prov, provPut⟩ := h
-  cases a <;> step_cases hs <;> grind [State.setW, State.setS]
+  cases a <;> step_cases hs <;> grind [State.setW, State.setS, RunPc.lockW, RunPc.lockR]
 
 theorem invO_step {v s a s'} (hA : InvA s) (h : InvO s) (hs : step v s a = some s') : InvO s' :=
   ⟨invO_okGot hA h hs, invO_errFired h hs, invO_noLeavePanic h hs, invO_selLow hA h hs, invO_prov hA h hs,
    invO_provPut h hs⟩
 
-theorem invO_init (heads best targets pubs) : InvO (mkInit heads best targets pubs) := by
+theorem invO_init (heads best targets pubs st rtts) : InvO (mkInit heads best targets pubs st rtts) := by
   constructor
   · intro i w h hp; have := mkInit_waiter h; simp [this.1] at hp
   · intro i w h hp; have := mkInit_waiter h; simp [this.1] at hp
   · intro i w h; have := mkInit_waiter h; simp [this.1]
   · intro i w h hp; have := mkInit_waiter h; simp [this.1] at hp
   · intro i w h x hx; have := mkInit_waiter h; simp [this] at hx
-  · intro h h' w todo hr; simp [mkInit] at hr
+  · intro sw h h' w todo hr; simp [mkInit] at hr
 
 theorem reachable_invO {v s} (h : Reachable v s) : InvO s := by
   induction h with
-  | init heads best targets pubs hp => exact invO_init ..
+  | init heads best targets pubs st rtts hp hh => exact invO_init ..
   | step hr hs ih => exact invO_step (reachable_invA hr) ih hs
 
 end Tongo.PoolSM
